@@ -22,5 +22,16 @@ def run(res, replay=None):
             s = gen.rand_spec(rng, n_total=3, n_demes=1, n_epochs=rng.choice([1, 2, 3, 4]))
             cases.append({'spec': s, 'n': rng.randrange(3, 9 if res.tier == 'quick' else 11)})
     orc.run_oracle(res, 'projection', cases)
+    # one process, several models of the same family with different parameters and growing n
+    # (state shared between model instances must not leak from one parameterisation to the next)
+    if not replay:
+        seq = []
+        for kind, params in (('dirac', [dict(psi=0.25, c=2.0), dict(psi=0.75, c=4.0), dict(psi=0.5, c=1.0)]),
+                             ('beta', [dict(alpha=1.25), dict(alpha=1.75)])):
+            for j, pr in enumerate(params):
+                s = gen.rand_spec(rng, n_total=3, n_demes=1, n_epochs=2)
+                s['model'] = dict(kind=kind, scale_time=False, **pr)
+                seq.append({'spec': s, 'n': 4 + 2 * j})
+        orc.run_oracle(res, 'projection', seq, chunk=len(seq))
     res.extra['input_distribution'] = {'n': sorted(c['n'] for c in cases),
                                        'by_model': {k: sum(1 for c in cases if c['spec']['model']['kind'] == k) for k in ('kingman', 'beta', 'dirac')}}
